@@ -32,6 +32,7 @@ Definition run_model (ptr : N) (ks : list N) (mods : list (path * gmodule)) : se
   match pyxis_resolve (hook_schedule ks) ptr mods with
   | BErr m => SList [Atom "model"; SList [Atom "verdict"; SList [Atom "err"; Str m]]]
   | BPanic m => SList [Atom "model"; SList [Atom "verdict"; SList [Atom "panic"; Str m]]]
+  | BFuel => SList [Atom "model"; SList [Atom "verdict"; SList [Atom "panic"; Str "model: resolution fuel exhausted"]]]
   | BNoProgress l =>
     SList [Atom "model"; SList [Atom "verdict"; SList (Atom "noprogress" :: map path_sexp (sort path_leb l))]]
   | BOk st =>
